@@ -16,7 +16,7 @@
    it; the goroutines woken by a release run to their next blocking point: `settle`).
    Model only; the theorems are in RegistryProofs.v. *)
 From Coq Require Import NArith List Bool.
-From KV.gen Require Import TxFacts.
+From KV.gen Require Import RegFacts.
 Import ListNotations.
 Open Scope N_scope.
 
@@ -32,7 +32,7 @@ Record config := mkConfig {
                         tracked under the connection "unknown" = 0) *)
 }.
 
-(* the limits the binary ships with (read off the source on every run: gen/TxFacts.v) *)
+(* the limits the binary ships with (read off the source on every run: gen/RegFacts.v) *)
 Definition shipped_config (svc peer : bool) : config :=
   mkConfig registry_default_idle_ms manager_ro_ttl_ms manager_rw_ttl_ms registry_begin_timeout_ms svc peer.
 
